@@ -332,4 +332,290 @@ theorem cov_mem (fmt : Fmt) (addr : Expr) (ih : CalcCov addr) : CalcCov (.mem fm
     rw [after_append]
     exact (hcov _ hresa).2
 
+theorem cov_bin (op : BinOp) (l r : Expr) (sg : Bool) (k : Gen.Kind) (ihl : CalcCov l) (ihr : CalcCov r) :
+    CalcCov (.bin op l r sg k) := by
+  intro dst long force g g' res W h hl
+  simp only [calculate] at h
+  rw [bind_ok] at h
+  obtain ⟨⟨d0, rel⟩, g1, hfree, h⟩ := h
+  simp only [] at h
+  rw [bind_ok] at h
+  obtain ⟨lres, g2, hcl, h⟩ := h
+  rw [bind_ok] at h
+  obtain ⟨u1, g3, hrel1, h⟩ := h
+  rw [bind_ok] at h
+  obtain ⟨u2, g4, hright, hfin⟩ := h
+  rw [release_ok] at hrel1
+  cases hrel1
+  obtain ⟨hc1, _⟩ := getFree_dst hfree
+  obtain ⟨cl, hcl', hcovl, hresl, _⟩ := ihl (some d0) long true g1 g2 lres W hcl hl.1
+  -- the right operand and the operation
+  have hR : ∃ cr, g4.code = g2.code ++ cr ∧ covered (after W cl) cr ∧ lres.reg ∈ after (after W cl) cr := by
+    cases hs : r.asSmallConst with
+    | some v =>
+      simp only [binRight, hs] at hright
+      rw [emit_ok] at hright
+      cases hright
+      obtain ⟨ra, da⟩ := rd_alu_imm op (long.getD lres.long) lres.reg v
+      refine ⟨[⟨op.opcode + longBit (long.getD lres.long), lres.reg, 0, 0, v⟩], rfl, covered_one ?_, ?_⟩
+      · rw [ra]; intro x hx; simp at hx; subst hx; exact hresl
+      · rw [after_one, da]; simp
+    | none =>
+      simp only [binRight, hs] at hright
+      rw [bind_ok] at hright
+      obtain ⟨rres, g5, hcr, hright⟩ := hright
+      rw [bind_ok] at hright
+      obtain ⟨u3, g6, hem, hright⟩ := hright
+      rw [emit_ok] at hem
+      rw [release_ok] at hright
+      cases hem; cases hright
+      have hlr : leavesOwned (after W cl) r := leavesOwned_mono (fun n hn => mem_after_of_mem cl hn) hl.2
+      obtain ⟨cr, hcr', hcovr, hresr, _⟩ := ihr none (some (long.getD lres.long)) false _ g5 rres (after W cl) hcr hlr
+      obtain ⟨ra, da⟩ := rd_alu_reg op (long.getD lres.long) lres.reg rres.reg
+      refine ⟨cr ++ [⟨op.opcode + Consts.op_REG + longBit (long.getD lres.long), lres.reg, rres.reg, 0, 0⟩],
+        by simp [hcr'], covered_snoc hcovr ?_, mem_after_snoc (Or.inl (by rw [da]; simp))⟩
+      rw [ra]
+      intro x hx
+      simp at hx
+      rcases hx with hx | hx
+      · subst hx; exact mem_after_of_mem cr hresl
+      · subst hx; exact hresr
+  obtain ⟨cr, hcr', hcovr, hresr⟩ := hR
+  have hcode : g4.code = g.code ++ (cl ++ cr) := by rw [hcr', hcl', hc1, List.append_assoc]
+  have hcov : covered W (cl ++ cr) := (covered_append cl cr W).mpr ⟨hcovl, hcovr⟩
+  have hres : lres.reg ∈ after W (cl ++ cr) := by rw [after_append]; exact hresr
+  -- the end
+  unfold binFinish at hfin
+  split at hfin
+  · rename_i hcond
+    rw [pure_ok] at hfin
+    cases hfin
+    refine ⟨cl ++ cr, hcode, hcov, hres, ?_⟩
+    intro _ d hd
+    subst hd
+    have : d = lres.reg := by simpa using hcond
+    exact this.symm
+  · rw [bind_ok] at hfin
+    obtain ⟨u4, g7, hrel2, hfin⟩ := hfin
+    rw [bind_ok] at hfin
+    obtain ⟨u5, g8, hem, hfin⟩ := hfin
+    rw [release_ok] at hrel2
+    rw [emit_ok] at hem
+    rw [pure_ok] at hfin
+    cases hrel2; cases hem; cases hfin
+    obtain ⟨rm, dm⟩ := rd_mov_reg (long.getD lres.long) (dst.getD 0) lres.reg
+    refine ⟨(cl ++ cr) ++ [⟨Consts.op_MOV + Consts.op_REG + longBit (long.getD lres.long), dst.getD 0, lres.reg, 0, 0⟩],
+      by simp [hcode], covered_snoc hcov ?_, mem_after_snoc (Or.inl (by rw [dm]; simp)), ?_⟩
+    · rw [rm]; intro x hx; simp at hx; subst hx; exact hres
+    · intro _ d hd; subst hd; rfl
+
+/-- **owners_sound, expression level**: whenever `calculate` succeeds on an expression whose leaf registers all have a value
+(`W`), every register an emitted instruction reads has a value or is written earlier in the emitted segment; the result
+register has a value afterwards; a forced destination is respected. -/
+theorem calc_covered (e : Expr) : CalcCov e := by
+  induction e with
+  | const v => exact cov_const v
+  | reg no lg sg => exact cov_reg no lg sg
+  | bin op l r sg k ihl ihr => exact cov_bin op l r sg k ihl ihr
+  | neg a ih => exact cov_neg a ih
+  | abs a ih => exact cov_abs a ih
+  | mem f a ih => exact cov_mem f a ih
+
+/-! ## assignments -/
+
+theorem setReg_covered {no : Nat} {long : Bool} {value : PyVal} {g g' : GenState} {W : List Nat}
+    (h : setReg no long value g = .ok ((), g')) (hl : ∀ e, ensureExpr value = .ok e → leavesOwned W e) :
+    ∃ c, g'.code = g.code ++ c ∧ covered W c ∧ no ∈ after W c := by
+  simp only [setReg] at h
+  rw [bind_ok] at h
+  obtain ⟨u, g1, hadd, h⟩ := h
+  rw [addOwner_ok] at hadd
+  cases hadd
+  cases hv : ensureExpr value with
+  | error er => simp only [hv] at h; rw [fail_ok] at h; exact h.elim
+  | ok e =>
+    simp only [hv] at h
+    rw [bind_ok] at h
+    obtain ⟨res, g2, hcalc, h⟩ := h
+    rw [release_ok] at h
+    cases h
+    obtain ⟨c, hc, hcov, hres, hpl⟩ := calc_covered e (some no) (some long) true _ g2 res W hcalc (hl e hv)
+    refine ⟨c, hc, hcov, ?_⟩
+    rw [← hpl rfl no rfl]
+    exact hres
+
+theorem setMem_covered {fmt : Fmt} {addr : Expr} {value : PyVal} {g g' : GenState} {W : List Nat}
+    (h : setMem fmt addr value g = .ok ((), g')) (ha : leavesOwned W addr)
+    (hl : ∀ e, ensureExpr value = .ok e → leavesOwned W e) :
+    ∃ c, g'.code = g.code ++ c ∧ covered W c := by
+  simp only [setMem] at h
+  cases hv : ensureExpr value with
+  | error er => simp only [hv] at h; rw [fail_ok] at h; exact h.elim
+  | ok v =>
+    simp only [hv] at h
+    rw [bind_ok] at h
+    obtain ⟨⟨d, off, arel⟩, g1, haddr, h⟩ := h
+    simp only [] at h
+    -- the address: a base register with a value, possibly computed
+    have hA : ∃ ca, g1.code = g.code ++ ca ∧ covered W ca ∧ d ∈ after W ca := by
+      cases hsum : addr.asSum with
+      | some p =>
+        obtain ⟨base, off'⟩ := p
+        simp only [hsum] at haddr
+        rw [pure_ok] at haddr
+        cases haddr
+        obtain ⟨op', lg, sg', s', hshape⟩ := asSum_shape hsum
+        subst hshape
+        exact ⟨[], by simp, trivial, ha.1⟩
+      | none =>
+        simp only [hsum] at haddr
+        rw [bind_ok] at haddr
+        obtain ⟨ares, g2, hca, haddr⟩ := haddr
+        rw [pure_ok] at haddr
+        cases haddr
+        obtain ⟨ca, hca', hcova, hresa, _⟩ := calc_covered addr none (some true) false g g1 ares W hca ha
+        exact ⟨ca, hca', hcova, hresa⟩
+    obtain ⟨ca, hca, hcova, hd⟩ := hA
+    cases hsm : v.asSmallConst with
+    | some cst =>
+      simp only [hsm] at h
+      rw [bind_ok] at h
+      obtain ⟨u, g3, hem, h⟩ := h
+      rw [emit_ok] at hem
+      rw [release_ok] at h
+      cases hem; cases h
+      refine ⟨ca ++ [⟨Consts.op_ST + fmt.sizeOp, d, 0, off, cst⟩], by simp [hca], covered_snoc hcova ?_⟩
+      rw [(rd_st fmt d off cst).1]; intro x hx; simp at hx; subst hx; exact hd
+    | none =>
+      simp only [hsm] at h
+      rw [bind_ok] at h
+      obtain ⟨vres, g3, hcv, h⟩ := h
+      rw [bind_ok] at h
+      obtain ⟨u, g4, hem, h⟩ := h
+      rw [bind_ok] at h
+      obtain ⟨u2, g5, hr1, h⟩ := h
+      rw [emit_ok] at hem
+      rw [release_ok] at hr1 h
+      cases hem; cases hr1; cases h
+      have hlv : leavesOwned (after W ca) v := leavesOwned_mono (fun n hn => mem_after_of_mem ca hn) (hl v hv)
+      obtain ⟨cv, hcv', hcovv, hresv, _⟩ := calc_covered v none (some fmt.isLong) false g1 g3 vres (after W ca) hcv hlv
+      refine ⟨(ca ++ cv) ++ [⟨Consts.op_STX + fmt.sizeOp, d, vres.reg, off, 0⟩], by simp [hcv', hca],
+        covered_snoc ((covered_append ca cv W).mpr ⟨hcova, hcovv⟩) ?_⟩
+      rw [(rd_stx fmt d vres.reg off).1, after_append]
+      intro x hx
+      simp at hx
+      rcases hx with hx | hx
+      · subst hx; exact mem_after_of_mem cv hd
+      · subst hx; exact hresv
+
+/-- the registers a statement gives a value -/
+def destRegs : Stmt → List Nat
+  | .set (.reg _ no) _ => [no]
+  | .set (.var _) _ => []
+
+/-- the hypothesis of `owners_sound` for one statement: every register the elaborated expression reads, and the base
+register of a destination variable, has a value (C01's precondition `leavesOwned`, for the set `W`) -/
+def stmtLeaves (env : List VarLoc) (W : List Nat) : Stmt → Prop
+  | .set d e => (∀ v ex, elabE env e = .ok v → ensureExpr v = .ok ex → leavesOwned W ex) ∧
+      (∀ name l, d = .var name → lookupVar env name = some l → l.base ∈ W)
+
+theorem stmt_covered {env : List VarLoc} {s : Stmt} {g g' : GenState} {W : List Nat}
+    (h : emitStmt env s g = .ok ((), g')) (hl : stmtLeaves env W s) :
+    ∃ c, g'.code = g.code ++ c ∧ covered W c ∧ ∀ n ∈ destRegs s, n ∈ after W c := by
+  cases s with
+  | set d e =>
+    simp only [emitStmt] at h
+    cases hv : elabE env e with
+    | error er => simp only [hv] at h; cases h
+    | ok v =>
+      simp only [hv] at h
+      cases d with
+      | reg view no =>
+        simp only [] at h
+        obtain ⟨c, hc, hcov, hno⟩ := setReg_covered (W := W) h (fun ex hex => hl.1 v ex hv hex)
+        refine ⟨c, hc, hcov, ?_⟩
+        intro n hn
+        simp [destRegs] at hn
+        subst hn
+        exact hno
+      | var name =>
+        simp only [] at h
+        cases hlk : lookupVar env name with
+        | none => simp only [hlk] at h; cases h
+        | some l =>
+          simp only [hlk, varExpr] at h
+          have hbase := hl.2 name l rfl hlk
+          obtain ⟨c, hc, hcov⟩ := setMem_covered (W := W) h (by exact ⟨hbase, trivial⟩) (fun ex hex => hl.1 v ex hv hex)
+          exact ⟨c, hc, hcov, by intro n hn; simp [destRegs] at hn⟩
+
+/-! ## statement lists and programs -/
+
+def stmtsLeaves (env : List VarLoc) : List Nat → List Stmt → Prop
+  | _, [] => True
+  | W, s :: ss => stmtLeaves env W s ∧ stmtsLeaves env (destRegs s ++ W) ss
+
+theorem stmtLeaves_mono {env : List VarLoc} {W W' : List Nat} (hw : ∀ r, r ∈ W → r ∈ W') {s : Stmt}
+    (h : stmtLeaves env W s) : stmtLeaves env W' s := by
+  cases s with
+  | set d e => exact ⟨fun v ex h1 h2 => leavesOwned_mono hw (h.1 v ex h1 h2), fun name l h1 h2 => hw _ (h.2 name l h1 h2)⟩
+
+theorem stmtsLeaves_mono {env : List VarLoc} : ∀ (ss : List Stmt) {W W' : List Nat}, (∀ r, r ∈ W → r ∈ W') →
+    stmtsLeaves env W ss → stmtsLeaves env W' ss
+  | [], _, _, _, _ => trivial
+  | s :: ss, W, W', hw, h => by
+    refine ⟨stmtLeaves_mono hw h.1, stmtsLeaves_mono ss ?_ h.2⟩
+    intro r hr
+    rcases List.mem_append.mp hr with hr | hr
+    · exact List.mem_append_left _ hr
+    · exact List.mem_append_right _ (hw r hr)
+
+theorem stmts_covered {env : List VarLoc} : ∀ (ss : List Stmt) {g g' : GenState} {W : List Nat},
+    emitStmts env ss g = .ok ((), g') → stmtsLeaves env W ss → ∃ c, g'.code = g.code ++ c ∧ covered W c
+  | [], g, g', W, h, _ => by
+    simp only [emitStmts] at h
+    rw [pure_ok] at h
+    cases h
+    exact ⟨[], by simp, trivial⟩
+  | s :: ss, g, g', W, h, hl => by
+    simp only [emitStmts] at h
+    rw [bind_ok] at h
+    obtain ⟨u, g1, hs, h⟩ := h
+    obtain ⟨c1, hc1, hcov1, hdest⟩ := stmt_covered hs hl.1
+    have hl2 : stmtsLeaves env (after W c1) ss := by
+      refine stmtsLeaves_mono ss ?_ hl.2
+      intro r hr
+      rcases List.mem_append.mp hr with hr | hr
+      · exact hdest r hr
+      · exact mem_after_of_mem c1 hr
+    obtain ⟨c2, hc2, hcov2⟩ := stmts_covered ss h hl2
+    exact ⟨c1 ++ c2, by rw [hc2, hc1, List.append_assoc], (covered_append c1 c2 W).mpr ⟨hcov1, hcov2⟩⟩
+
+/-- **owners_sound** (C01 fragment of `Gen`: assignments of integer expressions to registers, locals and array-map
+variables): if every register that a statement's expression reads is owned before the program or is the destination of an
+earlier statement (C01's `leavesOwned`), then in the emitted code every register an instruction reads is in the initial
+`owners` or written earlier in the code. -/
+theorem owners_sound (p : Prog) (code : List Insn) (h : emitProg p = .ok code)
+    (hl : stmtsLeaves (layout p.vars) p.owned p.stmts) : covered p.owned code := by
+  unfold emitProg at h
+  split at h
+  · rename_i u g hg
+    cases h
+    obtain ⟨c, hc, hcov⟩ := stmts_covered p.stmts hg hl
+    simp only [Gen.initState, List.nil_append] at hc
+    rw [hc]
+    exact hcov
+  · cases h
+
+/-- the hypothesis `leavesOwned` cannot be replaced by the generator's own check (`Register.calculate` raising
+AssembleError for a register outside `owners`): a live temporary or a destination that `__setitem__` made an owner before
+the expression is evaluated passes that check without having a value.  Witness: `r2 = r2 + 1` with only r1, r10 owned. -/
+def selfRead : Prog := ⟨[1, 10], [], [.set (.reg .r 2) (.bin .add (.reg .r 2) (.c 1))]⟩
+
+theorem owners_check_insufficient :
+    ∃ code, emitProg selfRead = .ok code ∧ ¬ covered selfRead.owned code := by
+  refine ⟨[⟨Consts.op_ADD + Consts.op_LONG, 2, 0, 0, 1⟩], by rfl, ?_⟩
+  intro h
+  have h2 := h.1 2 (by simp [reads, isAlu, cls, code, useReg, Consts.op_ADD, Consts.op_LONG])
+  simp [selfRead] at h2
+
 end Ebv.C05
